@@ -1257,7 +1257,7 @@ PROPS = {
                     'decision), with solver-chosen successor links and None-for-empty states, and compared with a declarative '
                     'three-way merge (refuse iff a side is empty, the change sets intersect, a side removed the then-smallest '
                     'key, the successor links differ, or the result is empty). C and Python must take the same decision with '
-                    'the same reason code. Malformed and multi-leaf states: solver-chosen selectors into a palette.',
+                    'the same reason code. Malformed and multi-leaf states: solver-chosen selectors into a palette.' + ' Round 3: /pv obligations use values that are only partially ordered (equal or incomparable).',
         functions=['_OOBTree.so: bucket_merge, merge_output, merge_error, _bucket__p_resolveConflict, bucket__p_resolveConflict, '
                    'BTree__p_resolveConflict, get_bucket_state, initSetIteration/nextBucket/nextSet', 'BTrees._base: '
                    'Bucket._p_resolveConflict, Set._p_resolveConflict, _Tree._p_resolveConflict, _get_simple_btree_bucket_state, _SetIteration'],
@@ -1291,7 +1291,7 @@ PROPS = {
                     'symbolic key like the model; the C and Python state graphs must be equal; copy.copy likewise. Two storage '
                     'situations: every node has an oid (stored tree: no inline leaf states) and none has (fresh tree: root '
                     'embeds its single leaf). Bytes: on a solver model of every path the concrete container is pickled by both '
-                    'implementations with protocols 0..5 (byte-for-byte equal), unpickled and deep-copied, and checked again.',
+                    'implementations with protocols 0..5 (byte-for-byte equal), unpickled and deep-copied, and checked again.' + ' Round 3: the follow-up operation on the four (source, target) reloads of one state must leave four equal serialized states; a reachable state that __setstate__ rejects is a violation.',
         functions=['_OOBTree.so: BTree_getstate, _BTree_setstate, bucket_getstate, _bucket_setstate, set_getstate(bucket_getstate), '
                    '_set_setstate, BTree/Bucket __reduce__ via persistent', 'BTrees._base: _Tree.__getstate__/__setstate__, '
                    'Bucket.__getstate__/__setstate__, Set.__getstate__/__setstate__, _Base.__reduce__/_BTree_reduce_as'],
@@ -1307,7 +1307,7 @@ PROPS = {
                     'key (inside a leaf or across a leaf boundary), replace a separator by a symbolic key, drop a next link, '
                     'redirect a next link to a solver-chosen leaf, empty a leaf, point a firstbucket at a solver-chosen leaf, wrap a '
                     'leaf child in an interior node (mixed child kinds). Oracle: the independent walker. Walker-invalid implies a '
-                    'checker raises AssertionError; walker-valid (the symbolic key landed in range) implies both accept.',
+                    'checker raises AssertionError; walker-valid (the symbolic key landed in range) implies both accept.' + ' Round 3: corruption class emptynode (an additional empty interior child).',
         functions=['BTrees.check: check, Checker.check_sorted, Walker.walk, crack_btree, crack_bucket, classify', '_OOBTree.so: BTree_check, '
                    'BTree_check_inner', 'BTrees._base: _Tree._check'],
         assumptions=COMMON_ASSUME + ['single corruption of a state reachable through __setstate__'],
@@ -1357,7 +1357,7 @@ PROPS = {
                     'cache is in the sticky state; result, exception class and contents equal the un-cached model; after evicting '
                     'everything again the tree reads the same; after commit a fresh reader sees the same.' + IR_LEAF_TEXT +
                     'on the paths where the argument cannot be converted (integer far outside the key range) _bucket_get and '
-                    'Bucket_findRangeEnd return with the leaf\'s persistence state exactly as at entry (PER_USE matched by PER_UNUSE).' + IR_TREE_TEXT + IR_TREE_WHAT['pins'] + '.',
+                    'Bucket_findRangeEnd return with the leaf\'s persistence state exactly as at entry (PER_USE matched by PER_UNUSE).' + IR_TREE_TEXT + IR_TREE_WHAT['pins'] + '.' + ' Round 3: module-level set functions, isdisjoint (also unbound), update and the set operators on operands that are ghosts or active per solver-chosen flags, of solver-chosen kinds; the result must equal the all-active twin and nothing may stay pinned.',
         functions=[IR_TREE_FUNCS, '_OOBTree.so: PER_USE/PER_UNUSE/PER_ALLOW_DEACTIVATION bracketing in _BTree_get, _BTree_set, BTree_findRangeEnd, '
                    'BTree_rangeSearch, BTree_maxminKey, _bucket_get/_bucket_set, Bucket_maxminKey, BTreeItems_seek, PreviousBucket, '
                    'BTree_length_or_nonzero, BTree__p_deactivate, bucket__p_deactivate, _BTree_clear, _bucket_clear', 'BTrees._base (no pinning; '
@@ -1431,7 +1431,7 @@ PROPS = {
                     'made to fail. Asserted: MemoryError reaches the caller iff an allocation failed; contents are the previous ones '
                     'or the completed change (multi-key: nothing invented); checkers + walker accept; two further operations and a '
                     'follow-up workload behave; the container is destroyed (a dangling or doubly freed block kills the interpreter, '
-                    'which the decision journal turns into a replayed violation).',
+                    'which the decision journal turns into a replayed violation).' + ' Round 3: nodes modified by a call that then fails must have been announced to their data manager; fsBucket.fromBytes with a size palette; engine E2: _BTree_set of the native-key families from IR with the n-th malloc/realloc refused in turn (MemoryError, previous-or-completed contents, soundness incl. vector sizes, announcements, no leak, no double free) on fully symbolic words.',
         functions=['_OOBTree.so: BTree_Malloc, BTree_Realloc, Bucket_grow, bucket_split, BTree_grow, BTree_split, BTree_split_root, '
                    '_bucket_setstate, _set_setstate, _BTree_setstate, bucket_merge, set_operation, copyRemaining, bucket_append'],
         stubs=['allocation failure is injected only in BTree_Malloc/BTree_Realloc (hook); CPython-internal allocations never fail'],
@@ -1472,7 +1472,7 @@ PROPS = {
                     'PyLong whose value is an UNBOUNDED z3 integer (CPython API calls replaced by contract stubs): the argument is '
                     'accepted iff it is an int inside the type\'s range, the stored machine word then denotes exactly that integer, '
                     'otherwise TypeError is set and the target is not written - for all integers, for int/unsigned/long long/'
-                    'unsigned long long keys and values.',
+                    'unsigned long long keys and values.' + ' Round 3: entries update_container / ctor_container / update_container_value hand the datum over inside a container of a wider (object) family.',
         functions=['BTrees._datatypes: _AbstractNativeDataType.__call__, I/U/L/Q/F/f/s/O/Any', 'intkeymacros.h, intvaluemacros.h '
                    '(COPY_KEY_FROM_ARG, COPY_VALUE_FROM_ARG, longlong_convert, ulonglong_convert), floatvaluemacros.h, objectkeymacros.h '
                    '(check_argument_cmp), _fsBTree.c, as compiled into _bucket_set/_BTree_set/_bucket_setstate/_set_setstate'],
